@@ -25,6 +25,7 @@ func main() {
 	only := flag.String("only", "", "sub:index — run a single case")
 	self := flag.Bool("selfcheck", false, "run the monitor self-check")
 	cpu := flag.Int("cpulimit", 0, "RLIMIT_CPU seconds (soft); hard = soft+5")
+	asl := flag.Int("aslimit", 0, "RLIMIT_AS in MiB (0 = none); not usable with the race detector")
 	race := flag.Bool("race", false, "this binary was built with -race")
 	workdir := flag.String("workdir", "", "scratch directory")
 	aux := flag.String("aux", "", "auxiliary child entry point")
@@ -57,6 +58,10 @@ func main() {
 		}
 		fmt.Println("selfcheck ok")
 		return
+	}
+	if *asl > 0 {
+		lim := syscall.Rlimit{Cur: uint64(*asl) << 20, Max: uint64(*asl) << 20}
+		syscall.Setrlimit(syscall.RLIMIT_AS, &lim)
 	}
 	if *cpu > 0 {
 		lim := syscall.Rlimit{Cur: uint64(*cpu), Max: uint64(*cpu + 5)}
